@@ -132,7 +132,7 @@ def _c03_keep(r):
     return not r['instance'].startswith('seq/')           # shared diagrams, stores and fringes
 
 
-C01_RULES = ['R05.2', 'R01.', 'R07.1', 'R07.5', 'R07.6', 'R15.5', 'R06.', 'R08.', 'R09.', 'R10.', 'R11.', 'R12.', 'R18.', 'R02.1', 'R02.4', 'R02.5', 'R02.6']
+C01_RULES = ['R05.2', 'R01.', 'R07.1', 'R07.5', 'R07.6', 'R15.5', 'R15.2', 'R06.', 'R08.', 'R09.', 'R10.', 'R11.', 'R12.', 'R18.', 'R02.1', 'R02.4', 'R02.5', 'R02.6']
 
 
 def _c01_keep_both(r):
@@ -148,7 +148,7 @@ def _c01_keep(r):
 PROPS = {
     'C01': dict(fn=mk(C01_RULES, lambda r: _c01_keep(r)), explanation='prune polarity at the pop / enqueue / rough-bound sites, restricted->relaxed->enqueue protocol, Complete only on an empty fringe, exactness withdrawn on every path that squashes a layer'),
     'C02': dict(fn=mk(['R02.', 'R12.a', 'R06.1', 'R06.2', 'R06.3', 'R11.d', 'R11.e', 'R08.1', 'R15.2'], lambda r: r['rule'] != 'R15.2' or 'depth' in r['instance']), explanation='incumbent value and solution written together from the exact accessors of one diagram (one lock region in the parallel solver), improve-only guard, reported value = best_sol.map(|_| best_lb); longest-path max-update with witness edge; value and path read from one node; exact-best selection table'),
-    'C03': dict(technique='repository-specific static rules over rustc MIR (rustc_private driver): edge-cut reachability, must-pass-through, origin terms, lock regions; compile_fail witnesses (Send + Sync models, private shared state)', witnesses=['W1', 'W2'], fn=mk(['R05.2', 'R01.', 'R02.', 'R03.', 'R04.9', 'R04.7', 'R04.10', 'R06.', 'R07.1', 'R07.5', 'R07.6', 'R15.5', 'R08.', 'R09.', 'R10.', 'R11.', 'R12.', 'R18.'], _c03_keep), explanation='C01 clauses instantiated on ParallelSolver, lock regions (no re-entrant acquisition, one acquisition per check-then-act), pop-time discard polarity, cache mark guarded by must_explore'),
+    'C03': dict(technique='repository-specific static rules over rustc MIR (rustc_private driver): edge-cut reachability, must-pass-through, origin terms, lock regions; compile_fail witnesses (Send + Sync models, private shared state)', witnesses=['W1', 'W2'], fn=mk(['R05.2', 'R01.', 'R02.', 'R03.', 'R04.9', 'R04.7', 'R04.10', 'R06.', 'R07.1', 'R07.5', 'R07.6', 'R15.5', 'R15.2', 'R08.', 'R09.', 'R10.', 'R11.', 'R12.', 'R18.'], _c03_keep), explanation='C01 clauses instantiated on ParallelSolver, lock regions (no re-entrant acquisition, one acquisition per check-then-act), pop-time discard polarity, cache mark guarded by must_explore'),
     'C04': dict(technique='repository-specific static rules over rustc MIR (rustc_private driver): edge-cut reachability, must-pass-through, origin terms, lock regions; path-consistent guard enumeration for the condvar protocol; lower-bound interval domain (at least one worker)', fn=mk(['R04.', 'R11.c', 'R09.8', 'R18.a'], lambda r: r['rule'].startswith(('R04', 'R11', 'R18')) or r['instance'].startswith(('par/', 'clear-zeroes'))), explanation='checked premises P1-P9 of the deadlock-freedom argument (DESIGN.md C04): pairing of ongoing, release on every worker exit, wake-up not before the decrement, wait guards (path-consistent enumeration), completion guard, no re-entrant lock, vector length coupled to nb_threads, spawn range, at least one worker (lower-bound interval domain on every writer of nb_threads)'),
     'C05': dict(fn=mk(['R05.', 'R19.1', 'R19.2', 'R11.', 'R02.1', 'R02.5', 'R01.2', 'R01.3']), explanation='cutoff => Err without finalisation; Err => abort_search on all paths; abort_proof set; completion unreachable after abort; bound stored at abort covers own node, in-flight nodes and fringe top; sequential best_ub written at pop only'),
     'C06': dict(fn=mk(['R06.', 'R02.4', 'R02.6', 'R01.6', 'R01.7', 'R12.e', 'R12.d', 'R07.5', 'R05.1']), explanation='arc redirection with relaxed cost, relaxed/deleted flags, exactness propagation, complete reset between compilations (field table from the ADT), flag bits and tables, rough-bound pruning direction, exactness withdrawn when squashing'),
